@@ -8,21 +8,26 @@
   `InvA c B A` ("dealloc_by_equal_alloc"): the allocator stored in the array that owns a block is equal to the one that
   allocated it, and every returned block was released through an allocator equal to its producer.
 
-  THE FULL STATEMENT is `AllocSafe c`: along every history (no failures) `InvA` holds.  It is FALSE for the code as it
-  stands — negations on concrete witnesses:
+  THE FULL STATEMENT is `AllocSafe c`: along every history (no failures) `InvA` holds.
+
+    * `alloc_safe_fixed`   PROVED IN FULL for the tree with every repair (F6, F7, F8, F9d, F9, F9c): every configuration of the
+                           traits, every select_on_container_copy_construction mode, every allocator instance, every history.
+
+  It was FALSE for the code before fixes/F9.patch, F9c.patch, F9d.patch — negations on concrete witnesses (each for the tree
+  without that one repair):
 
     * `finding_F9_move_assign_adopts_foreign_block`            move assignment between unequal non-propagating allocators
     * `finding_F9_ext_move_ctor_adopts_foreign_block`          allocator-extended move constructor with an unequal allocator
     * `finding_F9c_copy_assign_replaces_allocator_under_block` same-extent copy assignment with POCCA
-    * `finding_F9d_view_assign_uses_default_allocator`         (tree without fixes/F9d) assignment from a view: the temporary is
-                                                               built with `allocator_type{}` and its block is adopted
+    * `finding_F9d_view_assign_uses_default_allocator`         assignment from a view: the temporary is built with
+                                                               `allocator_type{}` and its block is adopted
 
-  What IS proved, for all 16 trait configurations, all `select_on_container_copy_construction` modes, all instances, all
+  Also proved, for all 16 trait configurations, all `select_on_container_copy_construction` modes, all instances, all
   histories (no enumeration):
 
-    * `dealloc_by_equal_alloc_partial`   every operation outside the finding classes (`Op.affectedA c = false`) preserves `InvA`
-    * `dealloc_by_equal_alloc_history`   hence every history of such operations does; in particular with `is_always_equal`, or
-                                         with POCMA and without POCCA, only the allocator-extended move constructor is excluded
+    * `dealloc_by_equal_alloc_partial`   every operation outside the finding classes of `c` (`Op.affectedA c = false`; none when
+                                         every repair is in) preserves `InvA`
+    * `dealloc_by_equal_alloc_history`   hence every history of such operations does
     * `propagation_follows_traits`       copy assignment, move assignment and swap replace the allocator exactly when
                                          POCCA / POCMA / POCS say so; copy construction uses select_on_container_copy_construction;
                                          move construction takes the source's allocator; reextent, reshape, clear, assign keep it
@@ -75,6 +80,22 @@ theorem dealloc_by_equal_alloc_history (c : Cfg) (hok : c.OK) (ops : List Op)
 /-- with `is_always_equal` nothing can go wrong: every history satisfies the full statement (the finding classes are void) -/
 theorem alloc_safe_always_equal (c : Cfg) (hiae : c.iae = true) (p : Nat) (ops : List Op) (s' : St)
     (_ : runHist c ops (initSt p) = some s') : InvAS c s' := InvA.of_iae hiae _ _
+
+/-- every repair is in the tree -/
+def AllFixed (c : Cfg) : Prop := c.Fixed ∧ c.fx9 = true ∧ c.fx9a = true ∧ c.fx9c = true
+
+theorem not_affected_of_allFixed {c : Cfg} (h : AllFixed c) (op : Op) : op.fixedIn c = true ∧ op.affectedA c = false := by
+  obtain ⟨hf, h9, h9a, h9c⟩ := h
+  refine ⟨fixedIn_of_fixed hf op, ?_⟩
+  cases op <;> simp [Op.affectedA, h9, h9a, h9c]
+
+/-- THE FULL STATEMENT, for the tree with every repair: along every history, over every trait configuration and all
+    allocator instances, every block is owned by — and was released through — an allocator equal to the one that produced it -/
+theorem alloc_safe_fixed (c : Cfg) (hok : c.OK) (hfix : AllFixed c) : AllocSafe c := by
+  intro p ops
+  obtain ⟨s', hrun, _, hA⟩ := dealloc_by_equal_alloc_history c hok ops (fun op _ => not_affected_of_allFixed hfix op)
+    (initSt p) (good_init c p none) (InvA.init c p) rfl
+  exact ⟨s', hrun, hA⟩
 
 /-- the allocator an operation leaves in its target, for every operation that completes without a failure:
     * copy assignment: the source's allocator iff POCCA, else unchanged;  move assignment: iff POCMA;  swap: exchanged iff POCS;
@@ -169,8 +190,11 @@ theorem badAlloc_not_invA (c : Cfg) (r : Option St) (h : badAlloc c r = true) : 
       rw [this] at hb
       exact absurd hb.2 (by decide)
 
-/-- the repaired tree, no propagation, stateful allocators (the traits of std::pmr::polymorphic_allocator) -/
+/-- the tree with F6, F7, F8, F9d but before fixes/F9.patch and F9c.patch; no propagation, stateful allocators (the traits of
+    std::pmr::polymorphic_allocator) -/
 def cfgPlain : Cfg := { dim := 1, fx6 := true, fx7 := true, fx8 := true, fx9 := true }
+/-- every repair in -/
+def cfgFull : Cfg := { cfgPlain with fx9a := true, fx9c := true }
 /-- the same with propagate_on_container_copy_assignment -/
 def cfgPocca : Cfg := { cfgPlain with pocca := true }
 /-- the tree before fixes/F9d -/
@@ -202,7 +226,22 @@ theorem finding_F9d_view_assign_uses_default_allocator : ¬ AllocSafe cfgNo9 := 
 example : badAlloc cfgPlain (runHist cfgPlain [.ctorFill 0 1 [⟨0, 2⟩], .ctorFill 1 1 [⟨0, 3⟩], .assignView 0 1 none true, .dtor 0, .dtor 1]
     (initSt 4)) = false := by decide +kernel
 
+/-- with fixes/F9.patch and F9c.patch the witnesses are harmless: the elements are moved into storage of the target's allocator,
+    resp. the block is released through the old allocator and reacquired from the new one -/
+example : badAlloc cfgFull (runHist cfgFull [.ctorFill 0 1 [⟨0, 2⟩], .ctorDefault 1 2, .assignMove 1 0, .dtor 1, .dtor 0] (initSt 4)) = false := by
+  decide +kernel
+example : badAlloc cfgFull (runHist cfgFull [.ctorFill 0 1 [⟨0, 2⟩], .ctorMoveA 1 0 2, .dtor 1, .dtor 0] (initSt 4)) = false := by
+  decide +kernel
+example : badAlloc { cfgFull with pocca := true } (runHist { cfgFull with pocca := true }
+    [.ctorFill 0 1 [⟨0, 2⟩], .ctorFill 1 2 [⟨0, 2⟩], .assignCopy 0 1, .dtor 1, .dtor 0] (initSt 4)) = false := by decide +kernel
+/-- the block of the moved-to array comes from ITS allocator (2), the source's block went back to allocator 1 -/
+example : ((runHist cfgFull [.ctorFill 0 1 [⟨0, 2⟩], .ctorDefault 1 2, .assignMove 1 0] (initSt 4)).map fun s =>
+    s.blocks.map fun b => (b.alloc, b.freed, b.freedBy)) = some [(1, true, 1), (2, false, 0)] := by decide +kernel
+
 /-! ### non-vacuity -/
+
+example : AllFixed cfgFull := ⟨⟨rfl, rfl, rfl⟩, rfl, rfl, rfl⟩
+example : cfgFull.OK := ⟨(by intro h; cases h), (by decide)⟩
 
 example : cfgPlain.OK := ⟨(by intro h; cases h), (by decide)⟩
 /-- an unaffected history over two unequal allocators: copy construction, copy assignment, reextent, swap of equal ones -/
